@@ -350,6 +350,7 @@ for c in req.get("blocks", []):
         src, dst = area(c["src"], "s"), area(c["dst"], "d")
         sh = tuple(c["src"]["shape"])
         full = arr(c["data"], sh)
+        lazies = []
         for dc in c["decomps"]:
             o = {}
             try:
@@ -362,16 +363,42 @@ for c in req.get("blocks", []):
                 o["blocks"] = blocks_seen
                 blocks_seen = None
                 o["idx"] = [flat(idxv[0]), flat(idxv[1])]
+                o["names"] = {"idx": str(idx.name)}
                 sc = dc.get("src_chunks")
                 d = da.from_array(full, chunks=(tuple(sc[0]), tuple(sc[1])) if sc else sh)
+                lz = {"idx": idx}
                 for name, fun in (("nn", G.block_nn_interpolator), ("bil", G.block_bilinear_interpolator)):
                     v = R.resample_blocks(fun, src, [d], dst, dst_arrays=[idx], chunk_size=(rows, cols), dtype=full.dtype)
                     o["chunks"] = [list(map(int, ch)) for ch in v.chunks]
+                    o["names"][name] = str(v.name)
                     o[name] = flat(v.compute())
+                    lz[name] = v
+                lazies.append(lz)
             except Exception as e:  # noqa: BLE001
                 blocks_seen = None
+                lazies.append(None)
                 o.update(err(e))
             r["decomps"].append(o)
+        # the same lazy results evaluated TOGETHER in one dask computation, and in expressions mixing two decompositions
+        ok = [k for k, lz in enumerate(lazies) if lz is not None]
+        try:
+            flat_l = [lazies[k][n] for k in ok for n in ("idx", "nn", "bil")]
+            got = da.compute(*flat_l)
+            r["joint"] = {str(k): {"idx": [flat(got[3 * q][0]), flat(got[3 * q][1])], "nn": flat(got[3 * q + 1]), "bil": flat(got[3 * q + 2]),
+                                   "shapes": [list(np.shape(got[3 * q + t])) for t in range(3)]} for q, k in enumerate(ok)}
+        except Exception as e:  # noqa: BLE001
+            r["joint"] = err(e)
+        r["mixed"] = []
+        for k in ok[1:]:
+            for j in [q for q in ok if q < k][-2:]:
+                m = {"k": k, "j": j}
+                try:
+                    a, b = lazies[k]["bil"], lazies[j]["bil"]
+                    m["diff"] = flat((a - b.rechunk(a.chunks)).compute())
+                    m["sumdiff"] = float((da.nansum(lazies[k]["nn"]) - da.nansum(lazies[j]["nn"])).compute())
+                except Exception as e:  # noqa: BLE001
+                    m.update(err(e))
+                r["mixed"].append(m)
     except Exception as e:  # noqa: BLE001
         r.update(err(e))
     res.append(r)
